@@ -1,5 +1,5 @@
 (* Ctlog/Inv2Step.v — every event preserves Inv2 (given the first invariant) *)
-From SL Require Import Base.BytesProofs Ctlog.Model Ctlog.Spec Ctlog.Inv Ctlog.InvStep Ctlog.Inv2.
+From SL Require Import Base.BytesProofs Ctlog.Model Ctlog.Recompute Ctlog.Spec Ctlog.Inv Ctlog.InvStep Ctlog.Inv2.
 From Coq Require Import ZifyN ZifyNat ZifyBool.
 Open Scope N_scope.
 
@@ -19,6 +19,7 @@ Notation inst2 := (inst2 sha).
 Notation round2 := (round2 sha).
 Notation cache_ok := (cache_ok sha).
 Notation ack_ok := (ack_ok sha).
+Notation holds_at := (holds_at sha).
 Notation ckey := (ckey sha).
 Notation new_sleaves := (new_sleaves sha).
 
@@ -346,6 +347,66 @@ Proof.
       | fields; rewrite A1; eapply inst2_core; [| | | | |split; [exact Hc|exact Hr]]; reflexivity].
 Qed.
 
+(* ---------- cmd/recompute-cache: every inserted row names the entry at that index of a
+   committed tree ---------- *)
+Lemma nth_error_firstn_some {A} (l : list A) : forall n j x, nth_error (firstn n l) j = Some x -> nth_error l j = Some x.
+Proof.
+  induction l as [|a l IH]; intros [|n] [|j] x H; cbn in *; try discriminate; auto. eapply IH; eauto.
+Qed.
+Lemma nth_error_skipn_eq {A} (l : list A) : forall k j, nth_error (skipn k l) j = nth_error l (k + j).
+Proof.
+  induction l as [|a l IH]; intros [|k] j; cbn; auto. destruct j; reflexivity.
+Qed.
+
+Lemma cache_ok_insert h c k idx ts :
+  cache_ok h c -> holds_at h k idx ts -> cache_ok h (cache_insert_ignore c k (idx, ts)).
+Proof.
+  intros Hc Hh. unfold cache_insert_ignore. destruct (cache_get c k); [exact Hc|].
+  intros k0 i0 t0 Hin. apply in_app_or in Hin. destruct Hin as [Hin|[Hin|[]]]; [eauto|].
+  inversion Hin; subst. exact Hh.
+Qed.
+
+Lemma recompute_entries_ok h c0 ls0 : In (c0, ls0) h ->
+  forall ents c pos c1 ok,
+  cache_ok h c ->
+  (forall j sl, nth_error ents j = Some sl -> nth_error ls0 (N.to_nat pos + j) = Some sl) ->
+  recompute_entries sha c ents pos = (c1, ok) -> cache_ok h c1.
+Proof.
+  intros Hin. induction ents as [|sl r IH]; intros c pos c1 ok Hc Hn E; cbn [recompute_entries] in E.
+  - inversion E; subst. exact Hc.
+  - destruct (l_idx (sl_leaf sl) =? Z.of_N pos)%Z eqn:Ei.
+    + eapply IH; [| |exact E].
+      * apply cache_ok_insert; [exact Hc|].
+        exists c0, ls0, sl. split; [exact Hin|]. split.
+        { specialize (Hn O sl eq_refl). rewrite Nat.add_0_r in Hn. exact Hn. }
+        split; [reflexivity|]. split; [reflexivity|]. lia.
+      * intros j sl' Hj. specialize (Hn (S j) sl' Hj).
+        replace (N.to_nat (pos + 1) + j)%nat with (N.to_nat pos + S j)%nat by lia. exact Hn.
+    + inversion E; subst. exact Hc.
+Qed.
+
+Lemma rc_loop_ok h c0 ls0 s top lim : In (c0, ls0) h ->
+  forall fuel start c c1 why, cache_ok h c ->
+  rc_loop sha fuel s ls0 top start lim c = (c1, why) -> cache_ok h c1.
+Proof.
+  intros Hin. induction fuel as [|f IH]; intros start c c1 why Hc E; cbn [rc_loop] in E.
+  - inversion E; subst. exact Hc.
+  - destruct (top <=? start); [inversion E; subst; exact Hc|].
+    destruct (forallb _ _); [|inversion E; subst; exact Hc].
+    match type of E with context [recompute_entries sha c ?ents start] =>
+      destruct (recompute_entries sha c ents start) as [c2 ok] eqn:E2;
+      assert (Hc2 : cache_ok h c2) end.
+    { eapply recompute_entries_ok; [exact Hin|exact Hc| |exact E2].
+      intros j sl Hj.
+      assert (Hs : nth_error (slice ls0 start (N.min top (start + 12800) - start)) j = Some sl).
+      { destruct lim as [m|]; [eapply nth_error_firstn_some; exact Hj|exact Hj]. }
+      unfold slice in Hs. apply nth_error_firstn_some in Hs. rewrite nth_error_skipn_eq in Hs. exact Hs. }
+    destruct (negb ok); [inversion E; subst; exact Hc2|].
+    destruct (match lim with Some m => m <? N.min top (start + 12800) | None => false end);
+      [inversion E; subst; exact Hc2|].
+    eapply IH; [exact Hc2|exact E].
+Qed.
+
 Theorem Inv2_step w e : Inv w -> Inv2 w -> Inv2 (fst (step w e)).
 Proof.
   intros HI HI2. destruct e; unfold Model.step.
@@ -395,6 +456,14 @@ Proof.
     + unfold Inv2.round2 in *. cbn [i_pc i_rctx i_leaves i_inseq]. exact Hr.
   - (* tampering *)
     destruct HI2 as [A II]. destruct o; split; assumption.
+  - (* recompute-cache *)
+    destruct (get_inst (w_insts w) i) as [x|] eqn:G; [|exact HI2].
+    destruct (step_recompute_spec sha w i x key lim) as [E|(p & ls & c1 & why & _ & Hh & Hl & E)]; rewrite E; [exact HI2|].
+    destruct (inst2_of _ _ _ _ HI2 G) as [Hc Hr].
+    eapply Inv2_upd with (i := i) (ext := []); [eassumption|fields; now rewrite app_nil_r|reflexivity|auto|].
+    fields. split.
+    + cbn [i_cache set_cache]. eapply rc_loop_ok; [apply hist_leaves_in; exact Hh|exact Hc|exact Hl].
+    + unfold Inv2.round2 in *. cbn [i_pc i_rctx i_leaves i_inseq set_cache]. exact Hr.
 Qed.
 
 Theorem Inv2_run evs : forall w, Inv w -> Inv2 w -> Inv2 (run evs w).
